@@ -1,6 +1,6 @@
 (* Extraction of the executable model (ExtrOcamlBasic only; Z, positive, N, nat stay Coq's inductives). *)
 From Coq Require Import ZArith List.
-From DV Require Import Base Bid Arith OpsArith OpsCmp OpsMisc OpsConv OpsStr Judge.
+From DV Require Import Base Bid Arith OpsArith OpsCmp OpsMisc OpsConv OpsStr Judge TinyAfter.
 Require Import Extraction ExtrOcamlBasic.
 Extraction Language OCaml.
-Extraction "model.ml" expected judge expect_list md_of.
+Extraction "model.ml" expected judge expect_list md_of expected_ta.
